@@ -35,7 +35,11 @@ Inductive script :=
 | SBadMore (k : Z)     (* message number k (from 1), if flagged More, is answered with More=false *)
 | SEarlyUpd (k : Z)    (* ... is answered with an update *)
 | SErr (k : Z)         (* message number k is answered with an error *)
-| SErrFinal.           (* the message not flagged More is answered with an error
+| SErrFinal.           (* the message not flagged More is answered with an error of kind sc_errcode;
+                          with sc_once only the FIRST such message (a correct runtime sends exactly one:
+                          the model, like plugin.synchronize, does not look at the kind of a peer's error -
+                          recalcObjsPerSyncMsg gives up on everything but a SEND-side OversizedMessageErr -
+                          and never sends a second one, so neither field enters the model)
                           (stub: the Synchronize handler returns an error) *)
 
 Definition good_reply (nupd : Z) (more : bool) : option (reply Z) :=
@@ -76,9 +80,10 @@ Record sync_case := {
   (* observation *)
   sc_msgs : list obs_msg;      (* every Synchronize message the plugin end received *)
   sc_outcome : obs_outcome;    (* what the runtime's sync call-back was told *)
-  sc_calls : Z;                (* stub: invocations of the Synchronize handler *)
-  sc_hpods : list (Z * Z);     (* stub: id runs handed to the handler *)
-  sc_hctrs : list (Z * Z);
+  sc_errcode : Z;              (* scripts SErr / SErrFinal: gRPC code of the error the plugin end answers with
+                                  (2 Unknown = a plain error, 8 ResourceExhausted, 13 Internal, 14 Unavailable) *)
+  sc_once : bool;              (* script SErrFinal: only the first message not flagged More is failed *)
+  sc_hcalls : list (list (Z * Z) * list (Z * Z));   (* stub: every invocation of the Synchronize handler, with the id runs it was handed *)
   sc_upd : list Z;             (* updates the runtime's sync call-back received *)
   sc_active : bool;            (* the plugin received the event sent after registration *)
   sc_usable : bool             (* after the registration the runtime's plugin-sync lock was free again
@@ -136,7 +141,7 @@ Definition model_proj (c : sync_case) : proj :=
 Definition obs_proj (c : sync_case) : proj :=
   {| pj_outcome := match sc_outcome c with ODelivered => 0 | OFailed => 1 | OStalled => 3 | OOther => 4 end;
      pj_msgs := map (fun m : obs_msg => let '(pr, cr, more, sz) := m in (expand_ids pr, expand_ids cr, more, sz)) (sc_msgs c);
-     pj_calls := repeat (expand_ids (sc_hpods c), expand_ids (sc_hctrs c)) (Z.to_nat (sc_calls c));
+     pj_calls := map (fun pc => (expand_ids (fst pc), expand_ids (snd pc))) (sc_hcalls c);
      pj_upd := sc_upd c;
      pj_active := sc_active c;
      pj_usable := sc_usable c |}.
@@ -160,14 +165,28 @@ Definition well_behaved (c : sync_case) : bool :=
 Definition must_deliver (c : sync_case) : bool :=
   well_behaved c && min_chunks_fit (sc_hdr c) (sc_more c) (sc_limit c) (expand_w (sc_wp c)) (expand_w (sc_wc c)).
 
+(* no_resend (Spec/SyncSpec.v): nothing is sent after a message not flagged More, whatever the plugin
+   answers to it (C09_no_resend) *)
+Definition is_errfinal (c : sync_case) : bool :=
+  match sc_script c with SErrFinal => true | _ => false end.
+
 Definition holds_sync (c : sync_case) : bool :=
   let o := obs_proj c in
   let np := length (expand_w (sc_wp c)) in
   let nc := length (expand_w (sc_wc c)) in
   (* whatever the outcome, the runtime can go on: the next plugin can register *)
   sc_usable c &&
+  (* one request per registration: no message follows the one not flagged More; the handler is invoked
+     at most once, whatever it answers, and sees exactly the supplied state (C09_handler_at_most_once) *)
+  no_resend (map (fun m : pmsg => snd (fst m)) (pj_msgs o)) &&
+  (if sc_stub c
+   then (length (pj_calls o) <=? 1)%nat &&
+        forallb (fun call => pair_eqb zlist_eqb zlist_eqb call (zseq 0 np, zseq 0 nc)) (pj_calls o)
+   else true) &&
   match sc_outcome c with
   | ODelivered =>
+      (* a plugin whose handler failed its one synchronisation is not synchronised *)
+      negb (is_errfinal c) &&
       (* exactly the supplied pods and containers, each once, in the runtime's order *)
       zlist_eqb (concat (map (fun m : pmsg => fst (fst (fst m))) (pj_msgs o))) (zseq 0 np) &&
       zlist_eqb (concat (map (fun m : pmsg => snd (fst (fst m))) (pj_msgs o))) (zseq 0 nc) &&
